@@ -98,6 +98,14 @@ AddMany(b) ==
     /\ nextId' = nextId + Len(b)
     /\ out' = [op |-> "add_many"]
 
+\* add_events(iterable that raises after k events): the loop has pushed the first k, one by one
+AddManyFail(b, k) ==
+    /\ k \in 0..(Len(b) - 1)
+    /\ nextId + k - 1 <= MaxEv
+    /\ heap' = PushAll(heap, Stamped(SubSeq(b, 1, k), nextId), 1)
+    /\ nextId' = nextId + k
+    /\ out' = [op |-> "add_many_fail"]
+
 GetEvent ==
     /\ heap # <<>>
     /\ LET p == HeapPop(heap) IN heap' = p.heap /\ out' = [op |-> "get_event", ev |-> p.item]
@@ -125,6 +133,7 @@ RoundTrip ==
 Next ==
     \/ \E ts \in Ts, k \in Kinds : Add(ts, k)
     \/ \E b \in Batches : AddMany(b)
+    \/ \E b \in Batches : \E k \in 0..(Len(b) - 1) : AddManyFail(b, k)
     \/ GetEvent
     \/ \E t \in Probes : GetCurrent(t)
     \/ QLen \/ QEmpty \/ QLastTs \/ RoundTrip
